@@ -1462,5 +1462,126 @@ theorem clusters_of_wf : ∀ (gs : List (List Ch)), (∀ g ∈ gs, IsCluster g) 
         simp [this]
     simpa using key z hz c
 
+
+/-! ### the counters are sums over the counted characters -/
+
+theorem sumPos_codepoints : ∀ (cs : List Ch) (p : Pos), (sumPos p cs).codepoints = p.codepoints + cs.length := by
+  intro cs
+  induction cs with
+  | nil => intro p; simp [sumPos]
+  | cons c cs ih => intro p; simp only [sumPos, ih, Pos.adv, List.length_cons]; omega
+
+theorem sumPos_graphemes : ∀ (cs : List Ch) (p : Pos),
+    (sumPos p cs).graphemes = p.graphemes + (cs.filter (fun c => decide (c.w > 0))).length := by
+  intro cs
+  induction cs with
+  | nil => intro p; simp [sumPos]
+  | cons c cs ih =>
+    intro p
+    simp only [sumPos, ih, Pos.adv, List.filter_cons]
+    by_cases h : c.w > 0
+    · simp [h]; omega
+    · simp [h]
+
+theorem sumPos_columns : ∀ (cs : List Ch) (p : Pos),
+    (sumPos p cs).columns = p.columns + (cs.map (·.w)).sum := by
+  intro cs
+  induction cs with
+  | nil => intro p; simp [sumPos]
+  | cons c cs ih => intro p; simp only [sumPos, ih, Pos.adv, List.map_cons, List.sum_cons]; omega
+
+/-! ### resumption at the level of memory -/
+
+theorem lenSub_resume (len : Option Nat) (a k : Nat) (h : ∀ l, len = some l → a + k ≤ l) :
+    lenSub len (a + k) = lenDec (lenSub len a) k := by
+  cases len with
+  | none => rfl
+  | some l =>
+    have := h l rfl
+    unfold lenSub lenDec
+    simp only [show a + k ≤ l from this, show a ≤ l by omega, if_true, Option.map]
+    congr 1; omega
+
+theorem drop_wf (gs : List (List Ch)) (j : Nat) (h1 : ∀ g ∈ gs, IsCluster g) (h2 : ∀ g ∈ gs.tail, Spacing g) :
+    (∀ g ∈ gs.drop j, IsCluster g) ∧ (∀ g ∈ (gs.drop j).tail, Spacing g) := by
+  refine ⟨fun g hg => h1 g (List.mem_of_mem_drop hg), fun g hg => ?_⟩
+  rw [List.tail_drop] at hg
+  have hg' : g ∈ gs.drop 1 := by
+    rw [show j + 1 = 1 + j by omega, ← List.drop_drop] at hg
+    exact List.mem_of_mem_drop hg
+  rw [List.drop_one] at hg'
+  exact h2 g hg'
+
+theorem ncountmore_resume (mem : Mem) (fuel : Nat) (len : Option Nat) (pos : Pos) (L1 L2 : Option Limit)
+    (cs : List Ch) (t : Tail) (hle : LimitLe L1 L2) (hpre : ∀ l, len = some l → pos.bytes ≤ l)
+    (hs : scan mem fuel pos.bytes (lenSub len pos.bytes) = some (cs, t)) :
+    ∃ h2, ncountmore mem fuel len (specRun L1 (clusters cs) t pos).pos L2 =
+      .ret ((specRun L2 (clusters cs) t pos).ret (specRun L1 (clusters cs) t pos).pos.bytes)
+        (specRun L2 (clusters cs) t pos).pos h2 := by
+  obtain ⟨w1, w2⟩ := clusters_wf cs (scan_nonneg mem _ _ _ _ _ hs)
+  generalize hgs : clusters cs = gs at *
+  have hfl : gs.flatten = cs := by rw [← hgs]; exact clusters_flatten cs
+  obtain ⟨hp1, _⟩ := specRun_pos L1 t gs pos
+  generalize hj : specTaken L1 gs t pos = j at *
+  have hsplit : cs = (gs.take j).flatten ++ (gs.drop j).flatten := by
+    rw [← List.flatten_append, List.take_append_drop, hfl]
+  have hb1 : (specRun L1 gs t pos).pos.bytes = pos.bytes + bytesOf (gs.take j).flatten := by
+    rw [hp1, sumPos_bytes]
+  have hsc := scan_append mem (gs.take j).flatten fuel pos.bytes (lenSub len pos.bytes) (gs.drop j).flatten t
+    (by rw [← hsplit]; exact hs)
+  have hlen : lenSub len (specRun L1 gs t pos).pos.bytes =
+      lenDec (lenSub len pos.bytes) (bytesOf (gs.take j).flatten) := by
+    rw [hb1]
+    apply lenSub_resume
+    intro l hl
+    have h0 := hpre l hl
+    subst hl
+    have hls : lenSub (some l) pos.bytes = some (l - pos.bytes) := by simp [lenSub, h0]
+    rw [hls] at hs
+    have := scan_bytes_le mem _ _ _ _ _ hs
+    rw [hsplit, bytesOf_append] at this
+    omega
+  have hsc' : scan mem fuel (specRun L1 gs t pos).pos.bytes (lenSub len (specRun L1 gs t pos).pos.bytes) =
+      some ((gs.drop j).flatten, t) := by rw [hlen, hb1]; exact hsc
+  obtain ⟨h2, he⟩ := ncountmore_eq_spec mem fuel len (specRun L1 gs t pos).pos L2 _ t hsc'
+  obtain ⟨d1, d2⟩ := drop_wf gs j w1 w2
+  rw [clusters_of_wf _ d1 d2] at he
+  have hres := specRun_resume L1 L2 hle t gs pos
+  rw [hj] at hres
+  rw [hres] at he
+  exact ⟨h2, he⟩
+
+
+theorem bytesOf_eq_sum : ∀ (l : List Ch), bytesOf l = (l.map (·.n)).sum := by
+  intro l
+  induction l with
+  | nil => rfl
+  | cons c cs ih => simp [bytesOf, ih]
+
+theorem specRun_bytes_ge (L : Option Limit) (t : Tail) (gs : List (List Ch)) (here : Pos) :
+    here.bytes ≤ (specRun L gs t here).pos.bytes := by
+  rw [(specRun_pos L t gs here).1, sumPos_bytes]; omega
+
+
+theorem ret_inj {mem : Mem} {fuel : Nat} {len : Option Nat} {pos : Pos} {L : Option Limit}
+    {cs : List Ch} {t : Tail} (hs : scan mem fuel pos.bytes (lenSub len pos.bytes) = some (cs, t)) {r : Int} {p : Pos} {hi : Nat}
+    (h : ncountmore mem fuel len pos L = .ret r p hi) :
+    r = (specRun L (clusters cs) t pos).ret pos.bytes ∧ p = (specRun L (clusters cs) t pos).pos := by
+  obtain ⟨hi', he⟩ := ncountmore_eq_spec mem fuel len pos L cs t hs
+  rw [he] at h
+  injection h with h1 h2 _
+  exact ⟨h1.symm, h2.symm⟩
+
+theorem ret_neg_iff (L : Option Limit) (gs : List (List Ch)) (t : Tail) (pos : Pos) :
+    (specRun L gs t pos).ret pos.bytes = -1 ↔ (specRun L gs t pos).err = true := by
+  unfold Res.ret
+  obtain ⟨hp, _⟩ := specRun_pos L t gs pos
+  have hb : (specRun L gs t pos).pos.bytes = pos.bytes + bytesOf (gs.take (specTaken L gs t pos)).flatten := by
+    rw [hp, sumPos_bytes]
+  cases he : (specRun L gs t pos).err with
+  | true => simp
+  | false => simp; omega
+
+
 end Utf8
 end Tickit
